@@ -34,6 +34,10 @@ type vfEvent struct {
 	CNext    []int    `json:"cnext"`
 	Parked   []int    `json:"parked"`
 	Runnable []int    `json:"runnable"`
+	Inner    int      `json:"inner"`   // thread at an inner scheduling point of a critical section, 0 if none
+	Holder   int      `json:"holder"`  // thread inside Cond.Wait before registering (holds messagesMu), 0 if none
+	Locked   bool     `json:"locked"`  // no Broadcast/Signal of this step was issued without holding messagesMu
+	IntLock  bool     `json:"intlock"` // Reset: InterruptGetNext of the code under test takes messagesMu (probed)
 	Ids      []string `json:"ids,omitempty"`
 	NThreads int      `json:"nthreads,omitempty"`
 	Sched    []int    `json:"sched,omitempty"`
